@@ -235,7 +235,7 @@ var evalSrcs = []struct {
 	{"\n\nnop(); nf();", []int{2}, true}, // nf is not a function: the error comes before its site is recorded
 	{"new K0(); (function(){ throw new Error('x'); })();", []int{4, -2}, true},
 	{"idf(1); 2;", []int{0}, false},
-	{"var q9 = idf(idf(3));\nnop();", []int{13, 9, 22}, false},
+	{"var ezz = idf(idf(3));\nnop();", []int{14, 10, 23}, false},
 }
 
 type errSpec struct {
@@ -700,9 +700,9 @@ var raisers = map[string][]raiser{
 			h := heads[g.r.Intn(len(heads))]
 			o := g.idx() + h.skip
 			if g.r.Bool() {
-				g.w(h.text + ".o9.p.q;")
+				g.w(h.text + ".ozz.p.q;")
 			} else {
-				g.w(h.text + "[\"o9\"].p;")
+				g.w(h.text + "[\"ozz\"].p;")
 			}
 			return nil, fmt.Sprintf("at:%d:%s", o, h.hd)
 		},
@@ -974,6 +974,42 @@ func genAll(c *h.Ctx) {
 				}
 			}
 		}
+	}
+	// (3c) messages are data: every creation route x constructor x messages from an alphabet with class names + ": ",
+	// format verbs, newlines, empty and long strings
+	var msgs []string
+	for _, ct := range errCtors {
+		msgs = append(msgs, ct+": disk full", ct+": ", ct+":x", ct, " "+ct+": y", ct+": "+ct+": z")
+	}
+	msgs = append(msgs, "", "x", "%s", "%d items", "100%", "%!", "%%", "%v %[1]d %*d", "a\nb", "\n", "MyErr: custom", "é世 ok", ": ", strings.Repeat("long ", 300), "Error: "+strings.Repeat("x", 2000))
+	for _, m := range msgs {
+		for _, ct := range errCtors {
+			for _, route := range []string{"new", "call"} {
+				c.Add(fmt.Sprintf("emsg %s %s %s", route, ct, optTok(m)), "emsg:"+route)
+			}
+		}
+		for _, ct := range []string{"TypeError", "RangeError", "SyntaxError", "Error", "MyErr", "EvalError"} {
+			c.Add(fmt.Sprintf("emsg make %s %s", ct, optTok(m)), "emsg:make")
+		}
+	}
+	for _, ct := range errCtors {
+		c.Add(fmt.Sprintf("emsg new %s -", ct), "emsg:new")
+		c.Add(fmt.Sprintf("emsg call %s -", ct), "emsg:call")
+	}
+	for _, t := range []string{"%", "%=", ")", "]", "}", "*", "*=", ".", ",", "?", ":", "&&", "||", "==", ">>>=", "|=", "<", "&"} {
+		c.Add("emsg engine evaltok "+optTok(t), "emsg:engine")
+	}
+	for _, t := range []string{"%", "@", "#", "x", "?"} {
+		c.Add("emsg engine json "+optTok(t), "emsg:engine")
+	}
+	for _, t := range []string{"zzz", "TypeError9", "ReferenceError_x", "Error$", "$s", "_d"} {
+		c.Add("emsg engine ident "+optTok(t), "emsg:engine")
+	}
+	for _, t := range []string{"nope", "TypeError: x", "%s", "%d%", "Error", "a b"} {
+		c.Add("emsg engine nonfn "+optTok(t), "emsg:engine")
+	}
+	for _, k := range []string{"undef", "null", "num", "str", "bool", "obj", "objn", "objm", "objnm", "obje"} {
+		c.Add("etostr "+k, "etostr")
 	}
 	// (4) Run's error text
 	for _, p := range primLits {
